@@ -30,6 +30,12 @@ pub struct Input {
     /// user properties added to the reply afterwards
     pub added: Vec<(String, String)>,
     pub qos: u8,
+    /// QoS requested for the replies and the Maximum QoS of the replying session's broker (that
+    /// session uses auto-downgrade, so a reply above the limit goes out at the limit)
+    #[serde(default)]
+    pub reply_qos: u8,
+    #[serde(default)]
+    pub reply_max_qos: Option<u8>,
 }
 
 pub fn response_topic(len: u32, variant: u8) -> String {
@@ -104,8 +110,12 @@ pub fn strategy(big: bool) -> BoxedStrategy<Input> {
         any::<u8>(),
         prop::collection::vec(("[a-z]{0,4}", "[a-z]{0,4}"), 0..3),
         0u8..3,
+        prop_oneof![3 => Just(0u8), 1 => Just(1u8), 1 => Just(2u8)],
+        prop_oneof![3 => Just(None), 1 => Just(Some(0u8)), 1 => Just(Some(1u8))],
     )
-        .prop_map(|(response_topic, correlation, others, pos_rt, pos_cd, added, qos)| Input {
+        .prop_map(|(response_topic, correlation, others, pos_rt, pos_cd, added, qos, reply_qos, reply_max_qos)| Input {
+            reply_qos,
+            reply_max_qos,
             response_topic: response_topic.map(|(l, v)| (l.max(1), v)),
             correlation,
             others,
@@ -275,9 +285,16 @@ pub fn eval(inp: &Input) -> Out {
     let (io_a, tr_a) = SimIo::new(mk(0));
     let (io_b, tr_b) = SimIo::new(mk(1));
     let mut sa = Session::new(ConfigBuilder::new(Buffers::new(&mut rx_a, &mut tx_a)).client_id("a").unwrap().keepalive_interval(0));
-    let mut sb = Session::new(ConfigBuilder::new(Buffers::new(&mut rx_b, &mut tx_b)).client_id("b").unwrap().keepalive_interval(0));
+    let mut sb = Session::new(ConfigBuilder::new(Buffers::new(&mut rx_b, &mut tx_b)).client_id("b").unwrap().keepalive_interval(0).autodowngrade_qos());
     tr_a.borrow_mut().push_inbound(&connack());
-    tr_b.borrow_mut().push_inbound(&connack());
+    let connack_b = rc::encode(&Packet::ConnAck { session_present: false, reason: 0, props: inp.reply_max_qos.map(|q| vec![Prop::MaximumQoS(q)]).unwrap_or_default() });
+    tr_b.borrow_mut().push_inbound(&connack_b);
+    let reply_qos = match inp.reply_qos {
+        0 => minimq::QoS::AtMostOnce,
+        1 => minimq::QoS::AtLeastOnce,
+        _ => minimq::QoS::ExactlyOnce,
+    };
+    let effective_qos = inp.reply_qos.min(inp.reply_max_qos.unwrap_or(2));
     let r = std::panic::catch_unwind(std::panic::AssertUnwindSafe(|| {
         let Some(Ok(mut ca)) = run_fut(&tr_a, sa.connect(io_a)) else {
             bad(&mut v, "C20/setup", "session A did not connect".into());
@@ -307,8 +324,24 @@ pub fn eval(inp: &Input) -> Out {
             (None, Some(_)) => bad(&mut v, "C20/reply-none-despite-response-topic", "reply() returned None".into()),
             (Some(p), Some(t)) => {
                 // first without, then with added user properties
-                if let Some(pb) = publish_via_b(&mut cb, &tr_b, p, &mut v, "reply") {
+                // the first reply at the generated QoS (downgraded to the broker's Maximum QoS)
+                if let Some(pb) = publish_via_b(&mut cb, &tr_b, p.qos(reply_qos), &mut v, "reply") {
                     check_reply(&pb, t, &cd, &[], &mut v, "reply");
+                    if pb.qos != effective_qos || pb.pid.is_some() != (effective_qos > 0) {
+                        bad(&mut v, "C20/reply-qos", format!("reply requested at QoS {} under Maximum QoS {:?}: sent with QoS {} and packet id {:?}", inp.reply_qos, inp.reply_max_qos, pb.qos, pb.pid));
+                    }
+                    // complete the exchange so that the in-flight slot is free again
+                    if let Some(pid) = pb.pid {
+                        if pb.qos == 1 {
+                            tr_b.borrow_mut().push_inbound(&rc::encode(&Packet::PubAck(rc::Ack::short(pid))));
+                            let _ = run_fut(&tr_b, cb.poll());
+                        } else {
+                            tr_b.borrow_mut().push_inbound(&rc::encode(&Packet::PubRec(rc::Ack::short(pid))));
+                            let _ = run_fut(&tr_b, cb.poll());
+                            tr_b.borrow_mut().push_inbound(&rc::encode(&Packet::PubComp(rc::Ack::short(pid))));
+                            let _ = run_fut(&tr_b, cb.poll());
+                        }
+                    }
                 }
                 let p2 = msg.reply(&b"pong"[..]).unwrap().properties(&added_props);
                 if let Some(pb) = publish_via_b(&mut cb, &tr_b, p2, &mut v, "reply-with-properties") {
